@@ -1,0 +1,23 @@
+//go:build verif
+
+// Verification hook (build tag "verif" only): exports the flowtableExclusionManager for the /verif
+// runtime monitors (property C41).  Additive; nothing here is compiled into a normal build.
+
+package intdataplane
+
+import (
+	dpsets "github.com/projectcalico/calico/felix/dataplane/ipsets"
+)
+
+// VerifFlowtableExclusionManager wraps the real flowtableExclusionManager.
+type VerifFlowtableExclusionManager struct {
+	m *flowtableExclusionManager
+}
+
+// VerifNewFlowtableExclusionManager calls the real constructor, exactly as int_dataplane.go does.
+func VerifNewFlowtableExclusionManager(ipsetsDataplane dpsets.IPSetsDataplane, ipVersion uint8, maxIPSetSize int) *VerifFlowtableExclusionManager {
+	return &VerifFlowtableExclusionManager{m: newFlowtableExclusionManager(ipsetsDataplane, ipVersion, maxIPSetSize)}
+}
+
+func (v *VerifFlowtableExclusionManager) OnUpdate(msg any)            { v.m.OnUpdate(msg) }
+func (v *VerifFlowtableExclusionManager) CompleteDeferredWork() error { return v.m.CompleteDeferredWork() }
